@@ -76,9 +76,9 @@ def run(tier):
     fs2.keep_iter_states = True
     res2, obs2, stats2 = run_regions(fs2, regions=['topo.emit'], jobs=1)
     loops = stats2['topo.emit']['loops']
-    lid = [l for l in loops if l.startswith('parseEmit#')]
+    lid = [l for l in loops if any(any(e[0] == 'send' for e in tr) for _k, tr, _s in (loops[l].get('iter_states') or []))]
     if len(lid) != 1:
-        raise AnalysisBroken('expected one loop in parseEmit')
+        raise AnalysisBroken('expected one transmitting loop in the Emit cell, found %s' % lid)
     k = ('sym', 'iter:' + lid[0], 0, INF)
     nframes = 0
     for kind, trace, st in loops[lid[0]]['iter_states'] or []:
